@@ -67,7 +67,12 @@ class Parser:
         self._load_runtime()
         self._tokens = Lex(input_string).tokens()
         self.next_token()
-        return self._script()
+        try:
+            return self._script()
+        except RecursionError:
+            # Hundreds of nested braces, ifs or loops exhaust the
+            # recursive-descent parser; that is an error in the script.
+            return self.trigger_error('Nesting is too deep.')
 
     def get_program(self):
         return self._code_gen.program
